@@ -226,6 +226,27 @@ def run(ctx):
     from props.C07 import check_payload_new
     check_payload_new(ctx, f)
     check_server_sends_items_in_order(ctx, f)
+    # the timing handed to the client's target is the PDU's own three fields, each converted from network byte order and
+    # nothing else (no clamping, no defaults): "its timing values equal the source's"
+    def _timing_fields(v):
+        if v[0] == "agg" and str(v[2]) == "Timing":
+            return [strip_deep(x) for _, x in v[3]]
+        return [None]
+    for fld in ("refresh", "retry", "expire"):
+        pass
+    tb_ = f.body(PDU + "EndOfDataV1::timing")
+    if tb_ is None:
+        ctx.missing("R-FLOW", "EndOfDataV1::timing", PDU + "EndOfDataV1::timing")
+    else:
+        ctx.saw_fn(tb_.name)
+        vals_ = [strip_deep(t) for _, _, t in success_values(tb_)]
+        want_ = ["num::from_be(self.%s)" % x for x in ("refresh", "retry", "expire")]
+        got_ = []
+        for v in vals_:
+            got_.append([render(strip_deep(x)) for _, x in v[3]] if v[0] == "agg" and str(v[2]) == "Timing" else render(v)[:120])
+        ctx.ob("R-FLOW", "EndOfDataV1::timing:own-fields", got_ == [want_],
+               "EndOfDataV1::timing returns the PDU's own refresh / retry / expire fields, converted from network byte order "
+               "and otherwise untouched", where=tb_.loc, detail=got_)
 
     checks = {}
     for meth, reset_flag in (("serial", "0"), ("reset", "1")):
